@@ -113,6 +113,9 @@ def pattern(counter: int, size: int) -> bytes:
     return _PAT[k:k + size]
 
 
+# (type id defined by the core definitions, payload length other than that definition's)
+FOREIGN = [(mt, n) for mt in sorted(P.CORE_SIZES) if mt not in P.CONTROL_TYPES for n in (max(0, P.CORE_SIZES[mt] - 4), P.CORE_SIZES[mt] + 4) if n <= 4096][:24]
+FOREIGN_TYPES = {mt for mt, _ in FOREIGN}
 DESTS = {"bcast": (0, 0), "toR1": (31, 31), "mixed": (33, 0)}  # pattern -> dest_mod_id of (P1's, P2's) messages; odd counters only
 
 
@@ -157,6 +160,9 @@ def execute(case) -> Dict[str, Any]:
                 ident = (f.src_mod_id, f.msg_type, f.h[2], f.h[7], zlib.crc32(f.payload))
                 occ[s][ident] = occ[s].get(ident, 0) + 1
                 all_seen[s].append(ident)
+                if f.src_mod_id == IDS["K"] and f.h[2] >= 200.0 and f.msg_type in FOREIGN_TYPES:
+                    if f.payload != pattern(int(f.h[2]), FOREIGN[int(f.h[2]) - 200][1]):
+                        problems.append({"kind": "payload", "slot": s, "src": f.src_mod_id, "counter": f.h[2], "msg_type": f.msg_type, "got_bytes": f.nbytes})
                 if f.msg_type == T1 and f.src_mod_id in (IDS["P1"], IDS["P2"]):
                     data_seen[s].append((f.src_mod_id, f.h[2]))
                     want = pattern(int(f.h[2]), f.nbytes)
@@ -189,7 +195,16 @@ def execute(case) -> Dict[str, Any]:
                 if buf:
                     w.clients[slot].send(buf)
             if st.get("ctl"):
-                w.clients["K"].send(P.mkframe(P.MT_SUBSCRIBE, P.p_sub(1002), timecode=tc, src_mod_id=IDS["K"]))
+                # K's requests: an ordinary one, requests naming ids no message can have (each is answered on K's connection, and
+                # whatever the manager writes there is a whole, counted frame), and data frames whose type id the core definitions
+                # know - with a payload length that is NOT the one of the manager's own definition (another build's layout)
+                kbuf = P.mkframe(P.MT_SUBSCRIBE, P.p_sub(1002), timecode=tc, src_mod_id=IDS["K"])
+                for mt, arg in ((P.MT_SUBSCRIBE, -1), (P.MT_RESUME_SUBSCRIPTION, -7), (P.MT_PAUSE_SUBSCRIPTION, -2), (P.MT_UNSUBSCRIBE, -1),
+                                (P.MT_SUBSCRIBE, -2 ** 31), (P.MT_SUBSCRIBE, P.MAX_MESSAGE_TYPES)):
+                    kbuf += P.mkframe(mt, P.p_sub(arg), timecode=tc, src_mod_id=IDS["K"])
+                for j, (mt, size) in enumerate(FOREIGN):
+                    kbuf += P.mkframe(mt, pattern(200 + j, size), timecode=tc, src_mod_id=IDS["K"], send_time=float(200 + j), msg_count=999)
+                w.clients["K"].send(kbuf)
             if st.get("tick"):
                 w.tick(st["tick"])
             order = st["order"]
